@@ -58,7 +58,8 @@ def cases(tier, seed):
                     "layout": ["xy", "zxy"][i % 2], "ndead": int(rng.integers(1, 8)), "seed": [seed, "zr", i]})
     # accumulator
     for i in range(n // 2):
-        out.append({"id": "acc-%d" % i, "kind": "acc", "npush": 1 + i % 5, "what": ["scalar", "array", "image"][i % 3], "seed": [seed, "acc", i]})
+        out.append({"id": "acc-%d" % i, "kind": "acc", "npush": 1 + i % 5, "what": ["scalar", "array", "image"][i % 3], "seed": [seed, "acc", i],
+                    "dtype": ["float64", "uint8", "uint16", "int32", "int64"][(i // 3) % 5]})
     for i in range(n // 4):
         out.append({"id": "acc-l-%d" % i, "kind": "acc", "npush": int(rng.integers(6, 13)), "what": ["scalar", "array", "image"][i % 3], "seed": [seed, "accl", i]})
     out.append({"id": "acc-empty", "kind": "acc_empty"})
@@ -357,17 +358,27 @@ def _run_acc(case):
     rng = rng_for(*case["seed"])
     n = case["npush"]
     what = case["what"]
+    dt = case.get("dtype", "float64")
+
+    def cast(a):     # camera frames are integer arrays; the accumulator must not compute in their dtype
+        if dt.startswith("float"):
+            return np.asarray(a).astype(dt)
+        hi = {"uint8": 255, "uint16": 60000, "int32": 10 ** 6, "int64": 10 ** 9}[dt]
+        return np.clip(np.asarray(a) * hi / 12.0, 0, hi).astype(dt)
     if what == "scalar":
-        xs = [float(v) for v in rng.normal(5, 2, n)]
+        xs = [float(v) for v in rng.normal(5, 2, n)] if dt.startswith("float") else [cast(v).item() if dt == "int64" else cast(v)[()] for v in rng.uniform(0, 12, n)]
     elif what == "array":
-        xs = [rng.normal(5, 2, (3, 4)) for _ in range(n)]
+        xs = [cast(rng.uniform(0, 12, (3, 4))) for _ in range(n)]
     else:
-        xs = [_img({"shape": [4, 5], "layout": "zxy", "scale": 1.0}, rng_for(*case["seed"])) * float(rng.uniform(0.5, 2)) for _ in range(n)]
+        base = _img({"shape": [4, 5], "layout": "zxy", "scale": 1.0}, rng_for(*case["seed"]))
+        xs = [base.copy(data=cast(rng.uniform(0, 12, base.shape))) for _ in range(n)]
     arrs = [np.asarray(getattr(x, "values", x), dtype=float) for x in xs]
     bm, bs = np.mean(arrs, axis=0), np.std(arrs, axis=0)
     orders = list(itertools.permutations(range(n))) if n <= 5 else [list(rng.permutation(n)) for _ in range(20)]
     wm = ws = 0.0
-    scale = float(np.abs(bm).max())
+    scale = float(np.abs(bm).max()) or 1.0
+    from vf.monitors import digest
+    d_in = digest(xs)
     for order in orders:
         acc = Accumulator()
         for k in order:
@@ -376,7 +387,7 @@ def _run_acc(case):
         s = np.asarray(getattr(acc.std(), "values", acc.std()), dtype=float)
         wm = max(wm, float(np.abs(m - bm).max()) / scale)
         ws = max(ws, float(np.abs(s - bs).max()) / scale)
-    flags = {}
+    flags = {"pushed_items_untouched": bool(digest(xs) == d_in)}
     if what == "image":
         acc = Accumulator()
         for x in xs:
